@@ -44,8 +44,9 @@ func TestZsimC01(t *testing.T) {
 }
 
 var (
-	c01ErrBad  = errors.New("unacceptable")
-	c01ErrSoft = errors.New("acceptable-error")
+	c01ErrBad      = errors.New("unacceptable")
+	c01ErrSoft     = errors.New("acceptable-error")
+	c01ErrFallback = errors.New("fallback-result")
 )
 
 const (
@@ -91,22 +92,23 @@ func c01Run(r *zsim.Run) {
 	zsim.Sleep(time.Duration(o.Intn(250)) * time.Millisecond)
 	names := []string{"svc-a", "svc-b"}
 	brs := map[string]*c01Br{}
+	brs["anon"] = &c01Br{b: New()}
+	// named breakers are created by whichever caller asks first, possibly several at once: the registry must
+	// hand every caller of one name the same breaker
 	get := func(name string) *c01Br {
-		if b, ok := brs[name]; ok {
-			return b
-		}
-		var b Breaker
 		if name == "anon" {
-			b = New()
-		} else {
-			b = Get(name)
+			return brs[name]
+		}
+		b := Get(name) // has scheduling points
+		if cur, ok := brs[name]; ok {
+			if cur.b != b {
+				r.Failf("registry-two-breakers-for-one-name", "Get(%q) returned a different breaker than an earlier Get of the same name: outcomes recorded through one are invisible to the other", name)
+			}
+			return cur
 		}
 		brs[name] = &c01Br{b: b}
 		return brs[name]
 	}
-	get("anon")
-	get("svc-a") // created up front: get() itself has scheduling points
-	get("svc-b")
 	r.Logf("randmode=%d", r.RandMode)
 	tasks := 1 + o.Intn(4)
 	done := 0
@@ -120,8 +122,11 @@ func c01Run(r *zsim.Run) {
 		r.Go(fmt.Sprintf("caller%d", t), func() {
 			defer func() { done++ }()
 			for i := 0; i < n && !r.Failed(); i++ {
-				name := zsim.Pick(o, "anon", "anon", "svc-a", "svc-b")
+				name := zsim.Pick(o, "anon", "svc-a", "anon", "svc-b")
 				br := get(name)
+				if r.Failed() {
+					return
+				}
 				outcome := zsim.Pick(o, 0, 1, 2, 2, 2, 3) // 0 nil 1 acceptable error 2 unacceptable 3 panic
 				dur := time.Duration(zsim.Pick(o, 0, 0, 1, 30, 400)) * time.Millisecond
 				api := o.Intn(6)
@@ -155,7 +160,15 @@ func c01Run(r *zsim.Run) {
 				}
 				var fbErr error
 				fbRan := false
-				fallback := func(err error) error { fbRan = true; fbErr = err; return errors.New("fallback-result") }
+				fbPanics := o.Intn(4) == 3
+				fallback := func(err error) error {
+					fbRan = true
+					fbErr = err
+					if fbPanics {
+						panic("fallback-panic")
+					}
+					return c01ErrFallback
+				}
 				active++
 				overlapped := active > 1
 				t0 := r.Now()
@@ -244,6 +257,13 @@ func c01Run(r *zsim.Run) {
 					if (api == 2 || api == 3) && (!fbRan || fbErr != ErrServiceUnavailable) {
 						r.Failf("fallback-not-called", "a rejected call's fallback ran=%v and received %v, want ErrServiceUnavailable", fbRan, fbErr)
 						return
+					}
+					if api == 2 || api == 3 {
+						// the fallback's result, or its panic, is the caller's; a rejected call records no outcome (checked by the accounting below)
+						if fbPanics && panicked != "fallback-panic" || !fbPanics && (err != c01ErrFallback || panicked != nil) {
+							r.Failf("wrong-rejection-error", "a rejected call whose fallback %s returned err=%v panic=%v", map[bool]string{true: "panicked", false: "returned fallback-result"}[fbPanics], err, panicked)
+							return
+						}
 					}
 					if api != 2 && api != 3 && err != ErrServiceUnavailable {
 						r.Failf("wrong-rejection-error", "a rejected call returned %v", err)
